@@ -191,10 +191,20 @@ def judge_c10(case, log):
             elif kind in ("path", "spath") and acc != want_acc:
                 bad("path-wrong-direction", "path opened with access mode %d" % acc)
     # the parent is given a pipe end exactly when the stream is a pipe
-    npipes = sum(1 for t in eff if t == R_PIPE)
-    if len(lib) != npipes + 1:
-        V(vs, "C10", "parent-end-count:%s" % closed_class,
-          "the library holds %d descriptors after start, expected %d pipe ends + the exit pipe (config %s, %s)" % (len(lib), npipes, o, ctx))
+    # per pipe the child got: exactly one end in the parent (other descriptors the library keeps
+    # for itself - exit detection - are its own business)
+    child_pipes = set(fds[st][2] for st in range(3) if eff[st] == R_PIPE and fds.get(st) is not None and stat.S_ISFIFO(fds[st][4]))
+    for ino in child_pipes:
+        ends = [l for l in lib if l[1] == ino]
+        if len(ends) > 1:
+            V(vs, "C10", "parent-end-count:%s" % closed_class,
+              "the library holds %d descriptors on the pipe (inode %s) of one child stream, expected one (config %s, %s)" % (len(ends), ino, o, ctx))
+    for st in range(3):
+        f = fds.get(st)
+        if eff[st] != R_PIPE and f is not None and stat.S_ISFIFO(f[4]) and f[2] in pipe_inodes and any(l[1] == f[2] for l in lib) \
+                and not (eff[st] == R_STDOUT and eff[1] == R_PIPE):
+            V(vs, "C10", "parent-holds-end-of-unpiped-stream:%s" % closed_class,
+              "%s is not configured as a pipe but the parent holds an end of what the child got (config %s, %s)" % (names[st], o, ctx))
     probes = [x for x in log.ops if x["op"] in ("WR", "RD") and "hang" not in x]
     for p in probes:
         st = 0 if p["op"] == "WR" else p["st"]
